@@ -95,13 +95,29 @@ func stressMkQuery0(r *gen.R, o *stressOpts, ups []string, worker, seq int) *str
 	if o.MaxDelayMs > 0 && r.P(0.7) {
 		delay = r.Intn(o.MaxDelayMs + 1)
 	}
+	// a label with octets above 0x7f (raw 8-bit / UTF-8 names are legal on the wire): names that differ
+	// only in such an octet - here in the bit that separates 'A' from 'a' - are different names
+	extra := ""
+	forceEdns := false
 	if r.P(o.UniqueFrac) {
 		first = fmt.Sprintf("%s-n%d-d%d-ttl%d-u%dx%d", kind, r.Range(1, 30), delay, r.Range(1, 600), worker, seq)
+		if r.P(0.1) {
+			extra = fmt.Sprintf(".x\\%03d\\%03d", 0xc1+r.Intn(26)|r.Intn(2)<<5, 0x80+r.Intn(128))
+		}
+		if kind == "ok" && up != "udp" && up != "udpx" && r.P(0.012) {
+			// a reply of 65525..65535 octets without OPT to a client that sent one: too large for any
+			// transport once the proxy has added its own OPT record
+			first = fmt.Sprintf("ok-n1-exact%d-u%dx%d", 65525+r.Intn(11), worker, seq)
+			forceEdns = true
+		}
 	} else {
 		h := r.Intn(o.HotNames)
 		first = fmt.Sprintf("%s-n%d-d%d-ttl%d-hot%d", kind, 1+h%30, (h*7)%(o.MaxDelayMs+1), 2+h%5, h)
+		if h%4 == 3 {
+			extra = fmt.Sprintf(".y\\%03d", 0xc1+h%26|r.Intn(2)<<5)
+		}
 	}
-	name := first + "." + up + ".test."
+	name := first + extra + "." + up + ".test."
 	if r.P(0.3) {
 		name = c03RandCase(r, name)
 	}
@@ -111,7 +127,7 @@ func stressMkQuery0(r *gen.R, o *stressOpts, ups []string, worker, seq int) *str
 		qc = dns.ClassCHAOS
 	}
 	id := uint16(r.Intn(65536))
-	wire := mkQuery(id, name, qt, qc, r.P(0.4))
+	wire := mkQuery(id, name, qt, qc, r.P(0.4) || forceEdns)
 	if kind == "rd0" {
 		wire[2] &^= 0x01
 	}
